@@ -3,6 +3,7 @@ package main
 import (
 	"fmt"
 	"go/ast"
+	"go/constant"
 	"go/token"
 	"go/types"
 	"sort"
@@ -141,6 +142,13 @@ func (cf *caseFn) canon(e ast.Expr) string {
 		if d, ok := cf.defs[o]; ok && d != "" {
 			return d
 		}
+		if k, ok := o.(*types.Const); ok {
+			// named constants of a named type (enums) keep their name;
+			// plain numeric/string constants are folded
+			if _, named := k.Type().(*types.Named); named {
+				return k.Name()
+			}
+		}
 		if tv, ok := cf.info.Types[x]; ok && tv.Value != nil {
 			return tv.Value.ExactString()
 		}
@@ -174,6 +182,13 @@ func (cf *caseFn) canon(e ast.Expr) string {
 			return "!(" + k + ")"
 		}
 		return k
+	case *ast.TypeAssertExpr:
+		if x.Type == nil {
+			return cf.canon(x.X) + ".(type)"
+		}
+		return cf.canon(x.X) + ".(" + exprString(x.Type) + ")"
+	case *ast.StarExpr:
+		return "*" + cf.canon(x.X)
 	case *ast.IndexExpr:
 		return cf.canon(x.X) + "[" + cf.canon(x.Index) + "]"
 	case *ast.SliceExpr:
@@ -288,6 +303,9 @@ func (t tri) not() tri {
 // eval evaluates a condition under a partial assignment of atom keys.
 func (cf *caseFn) eval(e ast.Expr, truth map[string]bool) tri {
 	e = ast.Unparen(e)
+	if tv, ok := cf.info.Types[e]; ok && tv.Value != nil && tv.Value.Kind() == constant.Bool {
+		return triOf(constant.BoolVal(tv.Value))
+	}
 	switch x := e.(type) {
 	case *ast.UnaryExpr:
 		if x.Op == token.NOT {
@@ -352,6 +370,12 @@ func (cf *caseFn) isBool(e ast.Expr) bool {
 // results joined with ", "), the nodes visited, and whether EXIT was reached
 // by falling off the end.
 func (cf *caseFn) walk(start int, truth map[string]bool) (rets []string, visited map[int]bool) {
+	return cf.walkBlocked(start, truth, nil)
+}
+
+// walkBlocked is walk with nodes that end the search (they are visited, their
+// successors are not followed).
+func (cf *caseFn) walkBlocked(start int, truth map[string]bool, block map[int]bool) (rets []string, visited map[int]bool) {
 	g := cf.g
 	visited = map[int]bool{}
 	set := map[string]bool{}
@@ -372,6 +396,9 @@ func (cf *caseFn) walk(start int, truth map[string]bool) (rets []string, visited
 				parts = append(parts, "<bare return>")
 			}
 			set[strings.Join(parts, ", ")] = true
+			continue
+		}
+		if block[n] && n != start {
 			continue
 		}
 		for _, e := range g.Nodes[n].Succs {
@@ -530,5 +557,88 @@ func (cf *caseFn) missingAtoms(truth map[string]bool) []string {
 		}
 	}
 	sort.Strings(out)
+	return out
+}
+
+// condNode returns the node whose outgoing condition mentions the atom key.
+func (cf *caseFn) condNode(key string) int {
+	for _, n := range cf.g.Nodes {
+		for _, e := range n.Succs {
+			if e.Cond == nil {
+				continue
+			}
+			found := false
+			var leaves func(x ast.Expr)
+			leaves = func(x ast.Expr) {
+				x = ast.Unparen(x)
+				switch y := x.(type) {
+				case *ast.UnaryExpr:
+					if y.Op == token.NOT {
+						leaves(y.X)
+						return
+					}
+				case *ast.BinaryExpr:
+					if y.Op == token.LAND || y.Op == token.LOR {
+						leaves(y.X)
+						leaves(y.Y)
+						return
+					}
+					if k, _ := cf.atomKey(y); k == key {
+						found = true
+					}
+					return
+				}
+				if cf.canon(x) == key {
+					found = true
+				}
+			}
+			leaves(e.Cond)
+			if found {
+				return n.ID
+			}
+		}
+	}
+	return -1
+}
+
+// visitedCalls lists the canonical call statements (expression statements and
+// the right-hand sides of assignments) among the visited nodes whose callee
+// text contains filter.
+func (cf *caseFn) visitedCalls(vis map[int]bool, filter string) []string {
+	set := map[string]bool{}
+	for id := range vis {
+		n := cf.g.Nodes[id].N
+		if n == nil {
+			continue
+		}
+		for _, call := range callsIn(n, false) {
+			s := cf.canon(call)
+			if strings.Contains(s, filter) {
+				set[s] = true
+			}
+		}
+	}
+	var out []string
+	for s := range set {
+		out = append(out, s)
+	}
+	sort.Strings(out)
+	return out
+}
+
+// oneHot returns truth with exactly the chosen key true among keys.
+func oneHot(truth map[string]bool, keys []string, chosen string) {
+	for _, k := range keys {
+		truth[k] = k == chosen
+	}
+}
+
+func mergeTruth(ms ...map[string]bool) map[string]bool {
+	out := map[string]bool{}
+	for _, m := range ms {
+		for k, v := range m {
+			out[k] = v
+		}
+	}
 	return out
 }
